@@ -43,7 +43,7 @@ def words_for(k, rng, tier, nrand):
 
 
 QUICK_K = [1, 2, 3, 4, 5, 6, 8, 11, 15, 16, 26, 32, 57, 64]
-THOROUGH_K = list(range(1, 129))
+THOROUGH_K = list(range(1, 33)) + [40, 48, 57, 64, 72, 96, 120, 128]      # all widths up to 32, then the common ones (all 1..128 took > 90 min)
 
 
 def _slices(k, tier):
